@@ -44,8 +44,13 @@ def cases_(draw):
                 for f in r['fields']:
                     if f['type'] == 'string' and row[f['name']] is not None:
                         row[f['name']] = 'é日' + row[f['name']]
-    return {'pkg': pkg, 'format': fmt, 'pretty': draw(st.sampled_from([None, False])),
-            'filehash': draw(st.integers(0, 4)) == 0}
+    c = {'pkg': pkg, 'format': fmt, 'pretty': draw(st.sampled_from([None, False])),
+         'filehash': draw(st.integers(0, 4)) == 0}
+    if draw(st.integers(0, 5)) == 0:
+        o = {}
+        gen_dump.per_resource_formats(draw, pkg, o)     # force_format=False: the format each path names
+        c['force_format'] = False
+    return c
 
 
 def cases(tier):
@@ -88,7 +93,9 @@ def check(case, ctx):
     def make(out):
         def fn():
             kw = {}
-            if case['format'] != 'csv':
+            if case.get('force_format') is False:
+                kw['force_format'] = False
+            elif case['format'] != 'csv':
                 kw['format'] = case['format']
             if case['pretty'] is not None:
                 kw['pretty_descriptor'] = case['pretty']
@@ -126,7 +133,7 @@ def check(case, ctx):
             if first_data and last_desc and first_data <= k <= last_desc:
                 n_nontrivial += 1
                 subkeys.append('%d%s' % (k, v))
-    classes = ['fmt:' + case['format'], 'resources=%d' % len(pkg), 'events~%d' % (10 * (len(events) // 10)),
+    classes = ['fmt:' + (case['format'] if case.get('force_format', True) else 'per-resource'), 'resources=%d' % len(pkg), 'events~%d' % (10 * (len(events) // 10)),
                'crash-runs~%d' % (20 * (n_runs // 20))]
     info = Info(nontrivial=n_nontrivial >= 2, classes=classes, evals=n_runs + 1, subkeys=subkeys,
                 extra={'crash_runs': n_runs, 'crash_runs_between_first_data_event_and_last_descriptor_event': n_nontrivial,
